@@ -1,2 +1,97 @@
-/* ref_adpcm.c - reference IMA (WAV and AIFF layouts) and Microsoft ADPCM block decoders (see C20) */
+/* ref_adpcm.c - reference IMA ADPCM (Microsoft WAV layout and Apple 'ima4' AIFF-C layout) and Microsoft
+** ADPCM block decoders, written from the IMA Digital Audio Focus recommended practices / Microsoft
+** "New Multimedia Data Types and Data Techniques" descriptions. Independent of libsndfile's sources.
+*/
 #include "ref.h"
+
+static const int ima_steps [89] =
+{	7, 8, 9, 10, 11, 12, 13, 14, 16, 17, 19, 21, 23, 25, 28, 31, 34, 37, 41, 45, 50, 55, 60, 66, 73, 80, 88, 97, 107, 118,
+	130, 143, 157, 173, 190, 209, 230, 253, 279, 307, 337, 371, 408, 449, 494, 544, 598, 658, 724, 796, 876, 963,
+	1060, 1166, 1282, 1411, 1552, 1707, 1878, 2066, 2272, 2499, 2749, 3024, 3327, 3660, 4026, 4428, 4871, 5358,
+	5894, 6484, 7132, 7845, 8630, 9493, 10442, 11487, 12635, 13899, 15289, 16818, 18500, 20350, 22385, 24623,
+	27086, 29794, 32767
+} ;
+static const int ima_index_adj [16] = { -1, -1, -1, -1, 2, 4, 6, 8, -1, -1, -1, -1, 2, 4, 6, 8 } ;
+
+static int ima_step (int *pred, int *index, int nibble)
+{	int step = ima_steps [*index], diff = step >> 3 ;
+	if (nibble & 4) diff += step ;
+	if (nibble & 2) diff += step >> 1 ;
+	if (nibble & 1) diff += step >> 2 ;
+	*pred += (nibble & 8) ? -diff : diff ;
+	if (*pred > 32767) *pred = 32767 ;
+	if (*pred < -32768) *pred = -32768 ;
+	*index += ima_index_adj [nibble] ;
+	if (*index < 0) *index = 0 ;
+	if (*index > 88) *index = 88 ;
+	return *pred ;
+}
+
+/* WAV layout: per channel 4 header bytes (predictor LE16, step index, reserved); then groups of 4 bytes per
+** channel, each byte two nibbles, low nibble first. First output sample of each channel is the header predictor. */
+int ref_ima_wav_decode_block (const unsigned char *blk, int blocksize, int channels, short *out, int max_frames)
+{	int pred [2], index [2], frames = 1 + (blocksize - 4 * channels) * 2 / channels ;
+	if (frames > max_frames) frames = max_frames ;
+	for (int c = 0 ; c < channels ; c++)
+	{	pred [c] = (short) (blk [4 * c] | (blk [4 * c + 1] << 8)) ;
+		index [c] = blk [4 * c + 2] ;
+		if (index [c] > 88) return -1 ;		/* outside the standard's domain */
+		out [c] = (short) pred [c] ;
+		}
+	const unsigned char *p = blk + 4 * channels ;
+	for (int f = 1 ; f < frames ; f += 8)
+		for (int c = 0 ; c < channels ; c++)
+			for (int k = 0 ; k < 8 ; k++)
+			{	int nib = (p [k / 2] >> ((k & 1) ? 4 : 0)) & 0x0F, v = ima_step (&pred [c], &index [c], nib) ;
+				if (f + k < frames) out [(f + k) * channels + c] = (short) v ;
+				if (k == 7) p += 4 ;
+				}
+	return frames ;
+}
+
+/* Apple ima4: 34 bytes per channel per 64 frames: BE16 header = predictor (upper 9 bits) | step index (7 bits);
+** 32 data bytes, low nibble first. Channel blocks follow each other. */
+int ref_ima_aiff_decode_block (const unsigned char *blk, int channels, short *out)
+{	for (int c = 0 ; c < channels ; c++)
+	{	const unsigned char *b = blk + 34 * c ;
+		int pred = (short) ((b [0] << 8) | (b [1] & 0x80)), index = b [1] & 0x7F ;
+		if (index > 88) return -1 ;
+		for (int k = 0 ; k < 64 ; k++)
+		{	int nib = (b [2 + k / 2] >> ((k & 1) ? 4 : 0)) & 0x0F ;
+			out [k * channels + c] = (short) ima_step (&pred, &index, nib) ;
+			}
+		}
+	return 64 ;
+}
+
+/* Microsoft ADPCM. Header: bPredictor per channel, iDelta per channel, iSamp1 per channel, iSamp2 per channel;
+** data nibbles high first, channels interleaved. Returns frames decoded, or -(frames decoded before iDelta left
+** the 16-bit range) - 1000000 style: we report via *valid_frames. */
+static const int ms_adapt [16] = { 230, 230, 230, 230, 307, 409, 512, 614, 768, 614, 512, 409, 307, 230, 230, 230 } ;
+
+int ref_ms_adpcm_decode_block (const unsigned char *blk, int blocksize, int channels, const short coeffs [][2], int ncoeffs, short *out, int max_frames)
+{	int bpred [2], delta [2], s1 [2], s2 [2], frames = 2 + 2 * (blocksize - 7 * channels) / channels, valid ;
+	const unsigned char *p = blk ;
+	if (frames > max_frames) frames = max_frames ;
+	for (int c = 0 ; c < channels ; c++) { bpred [c] = *p++ ; if (bpred [c] >= ncoeffs) return -1 ; }
+	for (int c = 0 ; c < channels ; c++) { delta [c] = (short) (p [0] | (p [1] << 8)) ; p += 2 ; if (delta [c] < 0) return -1 ; }
+	for (int c = 0 ; c < channels ; c++) { s1 [c] = (short) (p [0] | (p [1] << 8)) ; p += 2 ; }
+	for (int c = 0 ; c < channels ; c++) { s2 [c] = (short) (p [0] | (p [1] << 8)) ; p += 2 ; }
+	for (int c = 0 ; c < channels ; c++) { out [c] = (short) s2 [c] ; out [channels + c] = (short) s1 [c] ; }
+	valid = frames ;
+	int nibble_no = 0 ;
+	for (int f = 2 ; f < frames ; f++)
+		for (int c = 0 ; c < channels ; c++, nibble_no ++)
+		{	int byte = p [nibble_no / 2], nib = (nibble_no & 1) ? (byte & 0x0F) : (byte >> 4), snib = (nib & 8) ? nib - 16 : nib ;
+			int predict = (s1 [c] * coeffs [bpred [c]][0] + s2 [c] * coeffs [bpred [c]][1]) >> 8 ;
+			int cur = predict + snib * delta [c] ;
+			if (cur > 32767) cur = 32767 ;
+			if (cur < -32768) cur = -32768 ;
+			delta [c] = (ms_adapt [nib] * delta [c]) >> 8 ;
+			if (delta [c] < 16) delta [c] = 16 ;
+			if (delta [c] > 32767 && f < valid) valid = f + 1 ;	/* iDelta no longer fits 16 bits: later samples undefined */
+			s2 [c] = s1 [c] ; s1 [c] = cur ;
+			out [f * channels + c] = (short) cur ;
+			}
+	return valid ;
+}
